@@ -44,6 +44,18 @@ def forAll {α} (f : α → Out Unit) : List α → Out Unit
     | .panic => .panic
     | .fuel => .fuel
 
+/-- one property of an object producer against the consumer's property table -/
+def objPropCompat (rec : Ty → Ty → Out Unit) (sprops : List (String × PropT)) (kp : String × PropT) : Out Unit :=
+  match lookupS kp.1 sprops with
+  | none => .cerr
+  | some sp => (rec sp.ty kp.2.ty).addSeg kp.1
+
+/-- one member of a one-of consumer against the producer's member table -/
+def oneOfMemberCompat (rec : Ty → Ty → Out Unit) (omem : List (Key × Ty)) (km : Key × Ty) : Out Unit :=
+  match lookupK km.1 omem with
+  | none => .cerr
+  | some ot => rewrapC (rec km.2 ot)
+
 def compatS : Nat → Env → Env → Ty → Ty → Out Unit
   | 0, _, _, _, _ => .fuel
   | n + 1, es, eo, s, o =>
@@ -94,20 +106,14 @@ def compatS : Nat → Env → Env → Ty → Ty → Out Unit
       | some none => .panic
       | some (some (oid, oprops, eo')) =>
         if sid != oid then .cerr else
-        (forAll (fun (kp : String × PropT) =>
-          match lookupS kp.1 sprops with
-          | none => .cerr
-          | some sp => (compatS n es eo' sp.ty kp.2.ty).addSeg kp.1) oprops).bind fun _ =>
+        (forAll (objPropCompat (fun a b => compatS n es eo' a b) sprops) oprops).bind fun _ =>
           if sprops.any (fun kp => kp.2.required && !(hasKey kp.1 oprops)) then .cerr else .ok ()
     | .oneOf sik sdisc _ smem =>
       match o with
       | .oneOf oik odisc _ omem =>
         if sik != oik then .cerr else
         if sdisc != odisc then .cerr else
-        forAll (fun (km : Key × Ty) =>
-          match lookupK km.1 omem with
-          | none => .cerr
-          | some ot => rewrapC (compatS n es eo km.2 ot)) smem
+        forAll (oneOfMemberCompat (fun a b => compatS n es eo a b) omem) smem
       | _ => .cerr
     | .ref id =>
       match lookupS id es with
